@@ -237,6 +237,11 @@ def evaluate(chk: core.Check, cases):
 
 
 def run(chk: core.Check) -> int:
+    from tools import extract
+    ext = extract.main(['Code'])
+    chk.coverage['extract_digest'] = {k: v['digest'] for k, v in ext.items()}
+    chk.coverage['translated_functions'] = ext['Code']['data']
+    chk.trusted.append('tools/py2lean.py (Python subset -> Lean; np.trapz given its definition dx * sum of trapezoid means)')
     clean = chk.prove(['GeoVerif.Properties.C02'])
     quick = chk.tier == 'quick'
     evaluate(chk, gen_cases(chk.rng, 300 if quick else 3000, thorough=not quick))
